@@ -213,8 +213,8 @@ REGISTRY = {
                     "12% init=False, 20% Literal-typed, 30% of unions with a shared Literal `kind` attribute, 15% with None; every rotation plus two "
                     "random permutations of the members; two instances per member; the whole battery re-run in subprocesses under other PYTHONHASHSEEDs; "
                     "non-trivial = >= 2 members; distinct = (union, order)"},
-    "C19": {"props_file": "Props/C19.v", "files": ["Model/Base.v", "Model/Threads.v", "Gen/ThreadSrc.v", "Proofs/ThreadsProofs.v", "Props/C19.v"],
-            "run": _c19, "t1_sections": ["threads"],
+    "C19": {"props_file": "Props/C19.v", "files": ["Model/Base.v", "Model/Threads.v", "Model/LateBinding.v", "Gen/ThreadSrc.v", "Gen/LateSrc.v", "Proofs/ThreadsProofs.v", "Proofs/LateBindingProofs.v", "Props/C19.v"],
+            "run": _c19, "t1_sections": ["threads", "latebinding"],
             "rule": "forced schedules: 2-3 threads, each with 1-2 first-use requests over a cyclic and a diamond class graph, random schedules of 4-14 "
                     "macro-steps (a step runs one thread to its next parking point: a hook factory on a marker field type blocks it mid-generation), "
                     "both directions; every structure-direction schedule is run twice, with the working set as in the source and with it rebound to a "
@@ -238,6 +238,7 @@ REGISTRY = {
             "rule": RULE_TPL + " ; PLUS the systematic key-modes battery (attribute kind x key mode x forbid x 21 payloads, no randomness) ; PLUS tagged unions (oracle only): 2-4 members x tag generator x tag name x default member or none x forbid on/off x validation mode; payloads = a member's "
                     "own dict + the tag (known / unknown / missing) + a known set of 0-2 extra keys, key order reversed half of the time, at top level, inside List[U] and inside an attrs class attribute"},
     "C07": {"props_file": "Props/C07.v", "files": CORE_A + ["Props/C07.v"], "run": _c07, "rule": RULE_DISP},
-    "C08": {"props_file": "Props/C08.v", "files": CORE_A + ["Props/C08.v"], "run": _c08, "rule": RULE_DISP},
+    "C08": {"props_file": "Props/C08.v", "files": CORE_A + ["Model/LateBinding.v", "Gen/LateSrc.v", "Proofs/LateBindingProofs.v", "Props/C08.v"], "run": _c08, "rule": RULE_DISP,
+            "t1_sections": ["dispatch", "converters", "latebinding"]},
     "C18": {"props_file": "Props/C18.v", "files": CORE_A + ["Props/C18.v"], "run": _c18, "rule": RULE_DISP},
 }
